@@ -233,6 +233,24 @@ impl Run {
         mut self,
         confirm: &dyn Fn(&[Value]) -> Vec<Result<Vec<String>, String>>,
     ) -> i32 {
+        if embedded_fd().is_some() {
+            return self.finish_embedded(confirm);
+        }
+        // findings reported by an embedded run of another build profile were confirmed there
+        let confirm_outer = confirm;
+        let confirm = &|ws: &[Value]| -> Vec<Result<Vec<String>, String>> {
+            let inner: Vec<Value> = ws.iter().filter(|w| w["engine"] != "embedded").cloned().collect();
+            let mut res = if inner.is_empty() { vec![] } else { confirm_outer(&inner) }.into_iter();
+            ws.iter()
+                .map(|w| {
+                    if w["engine"] == "embedded" {
+                        Ok(vec![w["key"].as_str().unwrap_or("").to_string()])
+                    } else {
+                        res.next().unwrap_or_else(|| Err("missing replay result".into()))
+                    }
+                })
+                .collect()
+        };
         let known = load_known();
         let open: BTreeMap<String, &KnownEntry> = known
             .iter()
@@ -362,6 +380,114 @@ impl Run {
             1
         }
     }
+}
+
+impl Run {
+    /// Embedded mode (another build profile run by the main check): every finding is confirmed
+    /// by replay here and handed to the parent process as one JSON line; no verdict, no evidence.
+    fn finish_embedded(self, confirm: &dyn Fn(&[Value]) -> Vec<Result<Vec<String>, String>>) -> i32 {
+        let all: Vec<Finding> = self.findings.map.values().cloned().collect();
+        let ws: Vec<Value> = all.iter().map(|f| f.witness.clone()).collect();
+        let first = if ws.is_empty() { vec![] } else { confirm(&ws) };
+        let second = if ws.is_empty() { vec![] } else { confirm(&ws) };
+        let mut out = vec![];
+        let mut irreproducible = vec![];
+        for (n, f) in all.iter().enumerate() {
+            let ok = match (first.get(n), second.get(n)) {
+                (Some(Ok(x)), Some(Ok(y))) => x == y && x.iter().any(|k| k == &f.key),
+                _ => false,
+            };
+            if ok {
+                out.push(json!({"key": f.key, "what": f.what, "witness": f.witness, "count": f.count}));
+            } else {
+                irreproducible.push(f.key.clone());
+            }
+        }
+        let guards_ok = self.guards.iter().all(|g| g.1);
+        let v = json!({
+            "findings": out,
+            "irreproducible": irreproducible,
+            "guards_ok": guards_ok,
+            "evaluations": self.coverage.get("evaluations").cloned().unwrap_or(json!(0)),
+            "transitions": self.coverage.get("transitions").cloned().unwrap_or(json!(0)),
+            "exhaustive": self.coverage.get("exhaustive").cloned().unwrap_or(json!(false)),
+            "wall_s": self.started.elapsed().as_secs_f64(),
+        });
+        let line = format!("EMBEDDED {}\n", v);
+        let fd = embedded_fd().unwrap();
+        unsafe { libc::write(fd, line.as_ptr() as *const libc::c_void, line.len()) };
+        0
+    }
+}
+
+static EMBEDDED_FD: std::sync::atomic::AtomicI32 = std::sync::atomic::AtomicI32::new(-1);
+
+pub fn embedded_fd() -> Option<i32> {
+    let v = EMBEDDED_FD.load(std::sync::atomic::Ordering::SeqCst);
+    if v >= 0 {
+        Some(v)
+    } else {
+        None
+    }
+}
+
+/// Called first thing in main(): in embedded mode the real stdout is kept on a spare descriptor
+/// and stdout itself is discarded (a debug-assertions build prints every register access).
+pub fn init_embedded() {
+    if std::env::var("AXMC_EMBEDDED").is_ok() {
+        unsafe {
+            let keep = libc::dup(1);
+            let dn = libc::open(b"/dev/null\0".as_ptr() as *const libc::c_char, libc::O_WRONLY);
+            if keep >= 0 && dn >= 0 {
+                libc::dup2(dn, 1);
+                EMBEDDED_FD.store(keep, std::sync::atomic::Ordering::SeqCst);
+            }
+        }
+    }
+}
+
+/// Runs the same property with the quick alphabets in the build of another profile and returns
+/// its confirmed findings (keys prefixed with the profile) plus a summary for the evidence.
+pub fn run_embedded(profile: &str, prop: &str) -> (Findings, Value) {
+    let exe = Path::new(VERIF_ROOT).join(".build").join(profile).join("axmc");
+    let mut f = Findings::new();
+    if !exe.exists() {
+        return (f, json!({"profile": profile, "ran": false, "reason": "binary not built (./check builds it for the thorough tier)"}));
+    }
+    let out = std::process::Command::new(&exe)
+        .args(["run", prop, "--tier", "quick"])
+        .env("AXMC_EMBEDDED", "1")
+        .stderr(std::process::Stdio::null())
+        .output();
+    let out = match out {
+        Ok(o) => o,
+        Err(e) => machinery_error(&format!("cannot run {}: {e}", exe.display())),
+    };
+    let txt = String::from_utf8_lossy(&out.stdout);
+    let line = txt.lines().find(|l| l.starts_with("EMBEDDED "));
+    let v: Value = match line.and_then(|l| serde_json::from_str(&l[9..]).ok()) {
+        Some(v) => v,
+        None => machinery_error(&format!("{profile} run of {prop} produced no result (exit {:?})", out.status.code())),
+    };
+    if !v["guards_ok"].as_bool().unwrap_or(false) || v["irreproducible"].as_array().map(|a| !a.is_empty()).unwrap_or(true) {
+        machinery_error(&format!("{profile} run of {prop}: vacuity guard failed or irreproducible findings: {}", v["irreproducible"]));
+    }
+    if let Some(a) = v["findings"].as_array() {
+        for e in a {
+            let key = format!("{profile}|{}", e["key"].as_str().unwrap_or(""));
+            f.map.insert(
+                key.clone(),
+                Finding {
+                    key: key.clone(),
+                    what: format!("[{profile} build] {}", e["what"].as_str().unwrap_or("")),
+                    witness: json!({"engine": "embedded", "key": key, "profile": profile, "inner": e["witness"].clone()}),
+                    count: e["count"].as_u64().unwrap_or(1),
+                },
+            );
+        }
+    }
+    let summary = json!({"profile": profile, "ran": true, "evaluations": v["evaluations"], "transitions": v["transitions"], "exhaustive": v["exhaustive"], "wall_s": v["wall_s"], "finding_classes": f.map.len()});
+    (f, summary)
 }
 
 pub fn hex(b: &[u8]) -> String {
